@@ -883,6 +883,8 @@ class Interp(object):
 
     def st_For(self, s, st, fr):
         it = self.ev(s.iter, st)
+        if isinstance(it, AObj):
+            it = models.as_iterable(self, it, st, s)
         r = self._after_ev(st)
         if r[0] is None:
             return r
